@@ -114,7 +114,7 @@ def Stmt.render (g : Globals) : Stmt → M String
     match pos with
     | .after a => pure (sprintf (g.tpl "AlterTableAddColumnAfterStm") [g.esc t, s, g.esc a])
     | .first => pure (sprintf (g.tpl "AlterTableAddColumnFirstStm") [g.esc t, s])
-    | .none => pure (sprintf (g.tpl "AlterTableAddColumnFirstStm") [g.esc t, s])   -- no template without position exists (F12)
+    | .none => pure (sprintf (g.tpl "AlterTableAddColumnStm") [g.esc t, s])
   | .dropColumn t c => pure (sprintf (g.tpl "AlterTableDropColumnStm") [g.esc t, g.esc c])
   | .modifyColumn t c => do
     let d ← c.definition g
